@@ -114,6 +114,11 @@ def loop_inventory(ctx):
                 c = t['func']['fn']
                 r = c['resolved']
                 np = norm_path(r.get('path') if r.get('kind') == 'item' and r.get('path') else c['path'])
+                if np.rsplit('::', 1)[-1] in ('split_first', 'split_last') and 'slice' in np:
+                    # `while let Some((x, rest)) = s.split_first() { s = rest; .. }`: a slice peeled from one end, bounded
+                    # by its length like a slice iterator
+                    next_blocks.append(bi)
+                    iter_types.append('std::slice::Iter<(peeled slice)>')
                 if np.endswith('::next') and ('Iterator' in np or 'Iterator' in c.get('trait', '')):
                     next_blocks.append(bi)
                     at = ctx.T[t['arg_tys'][0]] if t.get('arg_tys') else None
